@@ -28,10 +28,12 @@ const NOT_COMPLETABLE: &[&str] = &[
     "forall X (q(X) -> p(X)). forall X Y (r(X, Y) -> p(Y)).", "forall X (q(X, Y) -> p(X)).", "exists X (q(X) -> p(X)).", "forall X (q(X) -> not p(X)).",
     // a head argument that is not a variable although the head mentions as many variables as it has arguments
     "forall N$i (p(N$i + 1) <- q(N$i)).", "forall N$i (q(N$i) -> p(N$i * 0)).", "forall I$i J$i (p(I$i * J$i, 1) <- q(I$i, J$i)).", "forall X$i Y$i (s(X$i) and s(Y$i) -> r(X$i + Y$i, a)).", "forall N$i (q(N$i) -> p(-N$i)).",
-    "forall X N$i (q(X, N$i) -> p(X, N$i + 0)).", "forall X$s (q(X$s) -> p(a)).", "forall X Y (q(X, Y) -> p(Y, Y)).", "forall X (q(X) -> p(#inf)).",
+    "forall X N$i (q(X, N$i) -> p(X, N$i + 0)).", "forall X$s (q(X$s) -> p(a)).", "forall X Y (q(X, Y) -> p(Y, Y)).", "forall X (q(X) -> p(#inf)).",    // several rules for one predicate whose heads differ in the position, the sort or the name of a variable
+    "forall V1 V2 (p(V1, V2) <- q(V1, V2)). forall V1 V2 (p(V2, V1) <- r(V1, V2)).", "forall X Y (q(X, Y) -> p(X, Y)). forall Y X (r(X, Y) -> p(Y, X)).", "forall X Y Z (q(X, Y, Z) -> p(X, Y, Z)). forall X Y Z (r(X, Y, Z) -> p(Y, Z, X)).",
+    "forall X (q(X) -> p(X)). forall X$i (r(X$i) -> p(X$i)).", "forall X Y (q(X, Y) -> p(X, Y)). forall X Z (r(X, Z) -> p(X, Z)).", "forall X Y (q(X, Y) -> p(X, Y)). forall X (r(X) -> p(X, X)).", "forall X Y$i (q(X, Y$i) -> p(X, Y$i)). forall X$i Y (q(Y, X$i) -> p(X$i, Y)).",
 ];
 const COMPLETABLE: &[&str] = &[
-    "forall X (q(X) -> p(X)). forall X (r(X) -> p(X)).", "forall V1 (exists X (V1 = X and q(X)) -> p(V1)). forall X (p(X) and not q(X) -> #false).", "forall V1 (q(V1) -> p(V1)). forall V1 V2 (q(V1) -> p(V1, V2)).", "#true -> p. q -> p.", "q and not r -> p.",
+    "forall X (q(X) -> p(X)). forall X (r(X) -> p(X)).", "forall V1 (exists X (V1 = X and q(X)) -> p(V1)). forall X (p(X) and not q(X) -> #false).", "forall V1 (q(V1) -> p(V1)). forall V1 V2 (q(V1) -> p(V1, V2)).", "#true -> p. q -> p.", "q and not r -> p.", "forall X Y (q(X, Y) -> p(X, Y)). forall Y X (r(X, Y) -> p(X, Y)).", "forall X Y (q(X, Y) -> p(X, Y)). forall X Y (r(Y, X) -> p(X, Y)). forall X Y (p(X, Y) and q(Y, X) -> #false).",
 ];
 
 fn tight(p: &asp::Program) -> bool {
